@@ -32,6 +32,18 @@ def fj(sets=None, flavour="O2", weight=1.0, tiers=("quick", "thorough")):
     return {"bin": "mvh", "cls": "forkjoin", "sets": sets or {}, "flavour": flavour, "weight": weight, "tiers": tiers,
             "shrink": FJ_SHRINK}
 
+SYNC_SHRINK = {"nworkers": 1, "yield_pm": 0, "parent_first": 0, "nthreads": 1, "nacq": 1, "nmutex": 1, "try_pm": 0, "timed_pm": 0,
+               "cs_points": 0, "helper_pm": 0, "np": 1, "nc": 1, "cap": 1, "k": 1, "nwaiters": 1, "rounds": 1, "n": 1,
+               "racer": -1, "ndeccers": 1, "late": 0, "items": 1, "pairs": 1, "readers": 0, "ncallers": 1, "nctl": 1}
+
+def sy(cls, sets=None, flavour="O2", weight=1.0, tiers=("quick", "thorough")):
+    return {"bin": "mvh", "cls": cls, "sets": sets or {}, "flavour": flavour, "weight": weight, "tiers": tiers, "shrink": SYNC_SHRINK}
+
+def sync_jobs(cls, extra=()):
+    return [sy(cls, weight=5), sy(cls, flavour="O0", weight=1), sy(cls, flavour="asan", weight=1)] + list(extra)
+
+BLOCK_PROBES = ["p_block", "wake_one_spin", "wake_many_spin", "p_steal_hit"]
+
 PROPS = {
     "C01": {
         "jobs": [fj({"reap_mask": 7, "stealfn": 0}, weight=5), fj({"reap_mask": 7, "stealfn": 0}, flavour="O0", weight=2),
@@ -58,4 +70,11 @@ PROPS = {
                  fj({"reap_mask": 63}, flavour="asan", weight=1)],
         "relevant_probes": ["p_free_ready2", "p_join_fast", "p_join_next", "p_join_sched"],
     },
+    "C04": {"jobs": sync_jobs("mutex", [sy("mutex", {"nworkers": 1, "helper_pm": 500}, weight=1)]), "relevant_probes": BLOCK_PROBES + ["mutex_cas"]},
+    "C05": {"jobs": sync_jobs("cond"), "relevant_probes": BLOCK_PROBES},
+    "C06": {"jobs": sync_jobs("barrier"), "relevant_probes": BLOCK_PROBES + ["barrier_reset", "sstack_cas"]},
+    "C07": {"jobs": sync_jobs("jc"), "relevant_probes": BLOCK_PROBES + ["jc_cas"]},
+    "C08": {"jobs": sync_jobs("uncond"), "relevant_probes": ["p_block", "uncond_spin", "uncond_wr"]},
+    "C09": {"jobs": sync_jobs("felock"), "relevant_probes": BLOCK_PROBES + ["felock_status"]},
+    "C14": {"jobs": sync_jobs("once"), "relevant_probes": ["once_cas", "once_spin", "once_done_wr"]},
 }
